@@ -127,6 +127,18 @@ def c05_echo(v):  # type: ignore[no-untyped-def]
 C05_LATE: dict = {}
 
 
+class C05Billing:
+    """a task module that keeps its errors next to what raises them: NESTED exception classes"""
+
+    from pynenc.exceptions import PynencError as _PE, RetryError as _RE
+
+    class QuotaExceeded(_PE):
+        pass
+
+    class TryLater(_RE):
+        pass
+
+
 def c05_make_exc(name: str, args: list) -> BaseException:
     import builtins
 
@@ -136,6 +148,8 @@ def c05_make_exc(name: str, args: list) -> BaseException:
         return ProgError(*args)
     if name == "RetryError":
         return RetryError(*args)
+    if name.startswith("Nested:"):
+        return getattr(C05Billing, name[7:])(*args)
     if name.startswith("Late:"):
         # a PynencError subclass that comes into existence only now (a plugin / task module imported late), i.e. after other
         # failures have already been read back in this process
